@@ -6,6 +6,7 @@ import Lean.Data.Json
 import DDV.Gen.Pipeline
 import DDV.Gen.EnumSem
 import DDV.Gen.AddrSem
+import DDV.Gen.OpSem
 
 namespace DDV.Gen
 open Lean (Json)
@@ -177,6 +178,26 @@ def addrTableJson (l : Lir) : Json :=
     Json.mkObj [("block", jstr b.name),
                 ("methods", Json.arr (b.methods.map (addrMethodJson lo hi)).toArray)]).toArray
 
+/-- `DDV.Gen.OpSem` tabulated for every leaf accessor: the operation object the accessor returns
+    (register: `SIZE_BITS` and the bytes of its reset constructor; command: the sizes of its two
+    sides, `null` for the unit type), to be compared with what the compiled driver puts on the wire. -/
+def opRowJson (n : Names) (l : Lir) (m : Method) : Json :=
+  match m.kind with
+  | .register =>
+    (match l.registerOperation n m 0 with
+     | some s => Json.mkObj [("size_bits", jnat s.sizeBits), ("reset", Json.arr (s.reset.map fun b => jnat b.toNat).toArray)]
+     | none => Json.null)
+  | .command =>
+    (match l.commandOperation m 0 with
+     | some s => Json.mkObj [("size_in", match s.sizeIn with | some k => jnat k | none => Json.null),
+                             ("size_out", match s.sizeOut with | some k => jnat k | none => Json.null)]
+     | none => Json.null)
+  | _ => Json.null
+
+def opTableJson (n : Names) (l : Lir) : Json :=
+  Json.arr (l.blocks.map fun b =>
+    Json.mkObj [("block", jstr b.name), ("ops", Json.arr (b.methods.map (opRowJson n l)).toArray)]).toArray
+
 def factsOk (n : Names) (l : Lir) : Json :=
   Json.mkObj [("outcome", jstr "ok"),
     ("internal_address_type", jstr (carrierName l.internalSigned l.internalBits)),
@@ -184,7 +205,8 @@ def factsOk (n : Names) (l : Lir) : Json :=
     ("field_sets", Json.arr ((l.fieldSets.filter (·.sizeBits > 0)).map (fieldSetJson n)).toArray),
     ("enums", Json.arr (l.enums.map enumJson).toArray),
     ("enum_tables", Json.arr (l.enums.map enumTableJson).toArray),
-    ("addr_tables", addrTableJson l)]
+    ("addr_tables", addrTableJson l),
+    ("op_tables", opTableJson n l)]
 
 def factsStop : Stop → Json
   | .error e => Json.mkObj [("outcome", jstr "error"), ("stage", jstr e.stage), ("kind", jstr e.kind),
